@@ -33,7 +33,8 @@ TOL = Fraction(8, 2 ** 53)
 
 def configs(tier):
     return ([{'integrator': k} for k in ORDER] + [{'integrator': k, 'dt': 'local'} for k in ORDER] +
-            [{'integrator': k, 'part': 'second-step'} for k in ORDER])
+            [{'integrator': k, 'part': 'second-step'} for k in ORDER] +
+            [{'integrator': k, 'part': 'second-step', 'reuse': True} for k in ORDER])
 
 
 def _tableau(B, name, n):
@@ -66,7 +67,8 @@ def _second_step(cfg, B):
     name = cfg['integrator']
     n, neq = 2, 2
     s, A, b, c = _tableau(B, name, n)
-    solver, disc, model, mesh = stubs.make(B, name, n=n, neq=neq)
+    # 'reuse': the right-hand side object returns the same array objects at every call (work arrays allocated once)
+    solver, disc, model, mesh = stubs.make(B, name, n=n, neq=neq, reuse=bool(cfg.get('reuse')))
     t0, dt1, dt2 = B.var('t0'), B.pos('dt1'), B.pos('dt2')
     f = B.fd.field.fdata(model, mesh, [B.vararray('y%d' % q, n) for q in range(neq)], t=t0)
     solver.step(f, dt1)
